@@ -4,7 +4,10 @@ use super::*;
 use tendermint::block::CommitSig;
 
 fn multi_validator_header(n: usize) -> (ExtendedHeader, Vec<SigningKey>) { multi_validator_header_pow(n, 100) }
-fn multi_validator_header_pow(n: usize, power: u32) -> (ExtendedHeader, Vec<SigningKey>) {
+fn multi_validator_header_pow(n: usize, power: u32) -> (ExtendedHeader, Vec<SigningKey>) { multi_validator_header_with(n, power, |_| {}) }
+// `tweak` runs after the header fields are set and BEFORE the block hash is taken and the commit is signed: the result is a
+// header that is consistently hashed and signed by its validators, whatever the tweak did
+fn multi_validator_header_with(n: usize, power: u32, tweak: impl Fn(&mut ExtendedHeader)) -> (ExtendedHeader, Vec<SigningKey>) {
     // start from a generated single-validator header and rebuild validator set + commit for n equal validators
     let mut generator = ExtendedHeaderGenerator::new();
     let mut header = generator.next();
@@ -37,6 +40,7 @@ fn multi_validator_header_pow(n: usize, power: u32) -> (ExtendedHeader, Vec<Sign
     header.header.validators_hash = header.validator_set.hash();
     header.header.next_validators_hash = header.validator_set.hash();
     header.header.data_hash = Some(header.dah.hash());
+    tweak(&mut header);
     header.commit.block_id.hash = header.header.hash();
     for (i, v) in ordered.iter().enumerate() {
         let key = keys
@@ -267,6 +271,19 @@ fn verif_enum_header_validation() {
         let r = std::panic::catch_unwind(std::panic::AssertUnwindSafe(|| h.validate().is_ok()));
         match r { Ok(false) => {}, Ok(true) => { println!("WITNESS C01: honest header with `{what}` changed still validates"); panic!("witness"); }
                   Err(_) => { println!("WITNESS C01/C16: validate() panicked after changing `{what}`"); panic!("witness"); } }
+    }
+    // C01: headers that are consistently hashed and signed by their own validators but do not commit to their DAH
+    let signed_variants: Vec<(&str, Box<dyn Fn(&mut ExtendedHeader)>)> = vec![
+        ("no data hash at all", Box::new(|h| { h.header.data_hash = None; })),
+        ("the data hash of another square", Box::new(|h| { h.header.data_hash = Some(tendermint::Hash::Sha256([3u8; 32])); })),
+        ("a validators_hash of another set", Box::new(|h| { h.header.validators_hash = tendermint::Hash::Sha256([6u8; 32]); })),
+    ];
+    for (what, t) in signed_variants.iter() {
+        cases += 1;
+        let (h, _) = multi_validator_header_with(3, 100, t);
+        let r = std::panic::catch_unwind(std::panic::AssertUnwindSafe(|| h.validate().is_ok()));
+        match r { Ok(false) => {}, Ok(true) => { println!("WITNESS C01: a header signed by its validators over `{what}` validates although its DAH / validator set is not the one it commits to"); panic!("witness"); }
+                  Err(_) => { println!("WITNESS C01/C16: validate() panicked on a signed header with `{what}`"); panic!("witness"); } }
     }
     // C02: generated chains verify link by link; a header does not verify against itself, a non-adjacent older one, or a
     // successor from another chain
